@@ -206,6 +206,25 @@ theorem entries_perm {c₁ c₂ : List Cell} (h : c₁.Perm c₂) (hn : c₁.len
     distinct_perm h, missing_perm h, h.length_eq]
   exact ⟨rfl, rfl⟩
 
+/-- the WHOLE profile of a column — both entries and the comment — is the same for every order of its rows, for
+    columns of any length -/
+theorem profile_perm {c₁ c₂ : List Cell} (h : c₁.Perm c₂) : profileColumn c₁ = profileColumn c₂ := by
+  unfold profileColumn
+  simp only [unique_count_exact, missing_count_exact, distinct_perm h, missing_perm h, h.length_eq]
+
+/-- THE TABLE: a table whose rows are those of `f` in another order (same columns) gets the same profile — same
+    rows of the result, same entries, same comments, same rejections — whatever attributes are requested -/
+theorem table_row_order_irrelevant (f g : Frame) (attrs : Option (List String))
+    (hc : g.columns = f.columns) (hr : g.rows.Perm f.rows) :
+    profileTable (some g) attrs = profileTable (some f) attrs := by
+  have hcol : ∀ a, profileColumn (g.col a) = profileColumn (f.col a) := fun a => by
+    apply profile_perm
+    unfold Frame.col Frame.colIdx
+    rw [hc]
+    exact hr.map _
+  unfold profileTable
+  simp only [validateInputTable, validateAttr, Frame.hasCol, hc, hcol, bind, Except.bind, pure, Except.pure]
+
 /-- stacking two columns adds their missing counts -/
 theorem missing_append (a b : List Cell) : missingValues (a ++ b) = missingValues a + missingValues b :=
   List.count_append
